@@ -56,9 +56,7 @@ def run():
             c.count_nontrivial(json.dumps(k, sort_keys=True))
     if not c.replay_path:
         def neg(pred, mut, prefix):
-            e = copy.deepcopy(next(e for e in evs if pred(e)))
-            mut(e)
-            c.add_negative(e, prefix)
+            c.negative_from(evs, pred, mut, prefix)
         live = lambda e: e["outcome"] == "ok" and not e["warned"]
         neg(lambda e: live(e) and not e["identity_expected"] and len(e["dev"]) > 0, lambda e: (e.__setitem__("s_scaled", 1), e.__setitem__("dev", [1000] * len(e["dev"]))), "C16.smoothing_condition")
         def bump(e, key):
